@@ -84,9 +84,10 @@ def main():
         if not a.in_repo:
             sh(["git", "-C", "/repo", "worktree", "remove", "--force", tree])
         results.append(res)
-        c = res["checks"].get(meta["property"], {})
-        print("%-10s %-4s applied=%s caught=%s rc=%s %s" % (sid, meta["property"], res["applied"], c.get("caught"), c.get("rc"),
-                                                             "; ".join(c.get("violations", [])[:1])), flush=True)
+        for pid in (props if res["applied"] else [meta["property"]]):
+            c = res["checks"].get(pid, {})
+            print("%-10s seeded-for=%-4s check=%-4s applied=%s caught=%s rc=%s %s" % (sid, meta["property"], pid, res["applied"], c.get("caught"),
+                                                                                   c.get("rc"), "; ".join(c.get("violations", [])[:3])), flush=True)
     rp = os.path.join(SEEDED, "RESULTS.json")
     merged = {}
     if os.path.exists(rp):
@@ -98,11 +99,15 @@ def main():
     head = sh(["git", "-C", "/repo", "rev-parse", "--short", "HEAD"])[1].strip()
     for r in results:
         r.update(tier=a.tier, in_repo=a.in_repo, when=stamp, repo_head=head)
+        if r["id"] in merged and merged[r["id"]].get("checks") and r.get("checks"):
+            ch = dict(merged[r["id"]]["checks"])
+            ch.update(r["checks"])
+            r["checks"] = ch
         merged[r["id"]] = r
     with open(rp, "w") as f:
         json.dump(dict(results=[merged[k] for k in sorted(merged)]), f, indent=1)
-    caught = sum(1 for r in results if r["checks"].get(r["property"], {}).get("caught"))
-    print("caught %d of %d" % (caught, len(results)))
+    caught = sum(1 for r in results if any(c.get("caught") for c in r["checks"].values()))
+    print("caught (by one of the checks run) %d of %d" % (caught, len(results)))
 
 
 if __name__ == "__main__":
